@@ -99,7 +99,7 @@ fn c16_spec() -> CheckSpec {
         ],
         real_components: vec!["a2lfile: tokenizer (include resolution), loader (make_include_filename, load, decoding), a2ml tokenizer (A2ML-level include), parser, writer, merge_includes", "std Read::read_to_end"],
         stubbed_components: vec!["file system (in-memory VFS with directories, CWD, fault plan, call trace)", "OS randomness feeding std RandomState"],
-        expected_probes: vec!["include-resolved-at-depth>=2", "include-resolved-at-depth-3", "EINTR-retried", "empty-include-file", "comment-only-include-file", "decoy-at-cwd-relative-location", "include-inside-if_data", "a2ml-include-inside-an-included-file", "include-file-in-utf16", "include-name-with-special-characters", "a2ml-include-name-with-special-characters", "a2ml-include-file-ends-in-line-comment-without-line-break", "same-file-included-twice-in-one-block"],
+        expected_probes: vec!["include-resolved-at-depth>=2", "include-resolved-at-depth-3", "EINTR-retried", "empty-include-file", "comment-only-include-file", "decoy-at-cwd-relative-location", "include-inside-if_data", "a2ml-include-inside-an-included-file", "include-file-in-utf16", "include-name-with-special-characters", "a2ml-include-name-with-special-characters", "a2ml-include-file-ends-in-line-comment-without-line-break", "same-file-included-twice-in-one-block", "main-text-through-load_from_string"],
         plans: vec![
             ScenarioPlan { scenario: Box::new(c16::C16Includes), quick_runs: 6_000, thorough_runs: 200_000 },
             ScenarioPlan { scenario: Box::new(c16::C16Cycles), quick_runs: 64, thorough_runs: 512 },
@@ -118,7 +118,7 @@ fn c17_spec() -> CheckSpec {
         assumptions: vec!["first character of every document is ASCII, as the format requires", "Latin-1 variants that happen to be valid UTF-8 are compared against the UTF-8 reading (inherent ambiguity, counted by a probe)"],
         real_components: vec!["a2lfile: loader (read_data, decode_raw_bytes, BOM strip), load/load_fragment_file and everything behind them", "std Read::read_to_end retry/growth loop"],
         stubbed_components: vec!["file system (in-memory VFS)", "OS randomness feeding std RandomState"],
-        expected_probes: vec!["EINTR-retried", "latin1-fallback-exercised", "encoded-include-file"],
+        expected_probes: vec!["EINTR-retried", "latin1-fallback-exercised", "encoded-include-file", "large-file-with-non-BMP-run-across-a-block-boundary"],
         plans: vec![
             ScenarioPlan { scenario: Box::new(c17::C17Encodings), quick_runs: 40_000, thorough_runs: 2_000_000 },
             ScenarioPlan { scenario: Box::new(c17::C17ArbitraryBytes), quick_runs: 40_000, thorough_runs: 4_000_000 },
